@@ -122,8 +122,11 @@ func genC08Client(g *Gen, c int, n int) [][]string {
 	keys := []string{"x", "y"}
 	k := func() string { return keys[g.r.Intn(2)] }
 	var out [][]string
+	if c%2 == 1 {
+		out = append(out, []string{"SELECT", "1"})
+	}
 	for i := 0; i < n; i++ {
-		switch g.r.Intn(26) {
+		switch g.r.Intn(29) {
 		case 0, 1:
 			out = append(out, []string{"INCR", "cnt"})
 		case 2:
@@ -171,6 +174,15 @@ func genC08Client(g *Gen, c int, n int) [][]string {
 			out = append(out, []string{"MULTI"}, []string{"INCR", "cnt"}, []string{"INCR", "cnt"}, []string{"GET", "cnt"}, []string{"EXEC"})
 		case 24:
 			out = append(out, []string{"SETNX", "lock", fmt.Sprint(c)})
+		case 25, 26:
+			// a transaction that switches into the other database and back (connections with an even
+			// number live in database 0, odd ones in database 1)
+			own, other := fmt.Sprint(c%2), fmt.Sprint(1-c%2)
+			out = append(out, []string{"MULTI"}, []string{"INCR", "cnt"}, []string{"SELECT", other}, []string{"INCR", "cnt"}, []string{"SELECT", own}, []string{"GET", "cnt"}, []string{"EXEC"})
+		case 27:
+			// a key watched in the other database
+			own, other := fmt.Sprint(c%2), fmt.Sprint(1-c%2)
+			out = append(out, []string{"SELECT", other}, []string{"WATCH", "cnt"}, []string{"SELECT", own}, []string{"MULTI"}, []string{"APPEND", "s", "w"}, []string{"EXEC"})
 		default:
 			out = append(out, []string{"GETSET", "s", fmt.Sprintf("g%d", c)})
 		}
@@ -219,9 +231,15 @@ func runC08(cfg runCfg, res *Result) error {
 		if err != nil {
 			return err
 		}
-		var rp struct{ Case []cop `json:"case"` }
+		var rp struct {
+			Kind string `json:"kind"`
+			Case []cop  `json:"case"`
+		}
 		if err := json.Unmarshal(b, &rp); err != nil {
 			return err
+		}
+		if rp.Kind == "volume" {
+			return c08VolumeReplay(cfg, res, srv, mdl, b)
 		}
 		why, err := check(rp.Case)
 		if err != nil {
@@ -287,7 +305,8 @@ func runC08(cfg runCfg, res *Result) error {
 		wg.Wait()
 		// final observation by a further connection, after everything
 		for _, a := range [][]string{{"GET", "cnt"}, {"GET", "s"}, {"MGET", "m1", "m2", "n1", "n2", "lock", "t"}, {"LRANGE", "lx", "0", "-1"}, {"LRANGE", "ly", "0", "-1"},
-			{"SMEMBERS", "sx"}, {"SMEMBERS", "sy"}, {"SMEMBERS", "sd"}, {"HGET", "h", "f"}, {"GET", "bo"}, {"KEYS", "*"}} {
+			{"SMEMBERS", "sx"}, {"SMEMBERS", "sy"}, {"SMEMBERS", "sd"}, {"HGET", "h", "f"}, {"GET", "bo"}, {"KEYS", "*"},
+			{"SELECT", "1"}, {"GET", "cnt"}, {"GET", "s"}, {"LRANGE", "lx", "0", "-1"}, {"SMEMBERS", "sx"}, {"KEYS", "*"}, {"SELECT", "0"}} {
 			t0 := time.Now().UnixNano()
 			nd, err := conns[k].Do(4*time.Second, bs(a...)...)
 			t1 := time.Now().UnixNano()
@@ -342,6 +361,9 @@ func runC08(cfg runCfg, res *Result) error {
 				}
 			}
 		}
+	}
+	if err := c08Volume(cfg, res, srv, mdl, g); err != nil {
+		return err
 	}
 	res.Distinct = res.Histories
 	_ = rand.Int
